@@ -1,9 +1,64 @@
--- line-protocol handler of property C06 (stub: nothing modelled yet)
+-- line-protocol handler of property C06 (untrusted input); op lines mirror harness/src/bin/c06.rs
+--   raw x <label> <vcfg> <field> <hasher> <e> <main degs> <aux degs> <#main asserts> <#aux asserts>
+--         <aux width of the AIR> <lagrange 0|1> <hex>
+--     -> `<parse>[ <front>]` as computed by Model.Parse.parseProof / verifyFront
+--   mut ...   -> `-` (exploration of the unmodelled rest of verify())
 import Winter.Drv.Util
+import Winter.Model.Parse
 
 namespace Drv.C06
+open Model Model.Serde Model.Parse
 
-def handle (_toks : List String) : String := "-"
+def fieldOf (s : String) : Option (FieldImpl × Bool) :=
+  if s == "f64" then some (F64.impl, true)
+  else if s == "f62" then some (F62.impl, true)
+  else if s == "f128" then some (F128.impl, false)
+  else none
+
+/-- serialized length and `size_of` of the hasher's digest -/
+def digestOf (s : String) : Option (Nat × Nat) :=
+  if s == "blake3_256" ∨ s == "sha3_256" ∨ s == "rp64_256" ∨ s == "rpjive64_256" then some (32, 32)
+  else if s == "blake3_192" then some (24, 24)
+  else if s == "rp62_248" then some (31, 32)
+  else none
+
+def degOf (s : String) : Option Protocol.Degree :=
+  match natList (s.splitOn ".") with
+  | some (b :: cs) => some ⟨b, cs⟩
+  | _ => none
+
+def degsOf (s : String) : Option (List Protocol.Degree) :=
+  if s == "-" then some [] else (s.splitOn ",").mapM degOf
+
+def frontStr : Front → String
+  | .field => "field"
+  | .opts => "opts"
+  | .airnew => "airnew"
+  | .ext => "ext"
+  | .err => "err"
+  | .panic => "panic"
+  | .pass => "pass"
+
+def handleRaw (t : List String) : String :=
+  match t with
+  | [_, _, _, f, h, e, md, ad, nma, naa, aw, lag, hx] =>
+    match fieldOf f, digestOf h, natList [e, nma, naa, aw, lag], degsOf md, degsOf ad, unhex hx with
+    | some (F, cubic), some (db, ds), some [e, nma, naa, aw, lag], some md, some ad, some bytes =>
+      let A : Air := { F := F, cubic := cubic, digestBytes := db, digestSize := ds, exemptions := e,
+                       mainDegs := md, auxDegs := ad, nMainAssert := nma, nAuxAssert := naa,
+                       descAuxWidth := aw, lagrange := lag == 1 }
+      match (parseProof bytes).1 with
+      | .ok p => "ok " ++ frontStr (verifyFront A p).1
+      | .err => "err"
+      | .eof => "eof"
+      | .panic => "panic"
+    | _, _, _, _, _, _ => "bad-op"
+  | _ => "bad-op"
+
+def handle (toks : List String) : String :=
+  match toks with
+  | "raw" :: rest => handleRaw rest
+  | _ => "-"
 
 end Drv.C06
 
